@@ -482,3 +482,91 @@ def loc_offset(check: Check, repo: Repo) -> None:
              unparse(body)[:80] if body is not None else "no body assignment")
     li = norm(ast.Name(id="line_index", ctx=ast.Load()))
     check.ob(rule, fn, "line_index = location.line - 1", same(li, LINE + Lin({}, -1)), f"normal form: {li}")
+
+
+# -- line bookkeeping is written by its owners only, and only forwards ----------------
+
+
+def line_owners(check: Check, repo: Repo, rule: str = "LINE-OWNERS") -> None:
+    from sa.effects import write_sites
+    from sa.resolve import ClassIndex
+
+    check.rule(
+        rule,
+        "Lexer.line / Lexer.line_start are written only by __init__ and by the two routines that consume "
+        "line terminators (read_next_token, read_block_string), and outside __init__ the line counter "
+        "only grows (`self.line += ...`): tokens are lexed once and then cached on the token chain, so a "
+        "routine that saves and restores the counters (look-ahead) leaves them stale for every token "
+        "served from the cache afterwards",
+    )
+    owners = {"__init__", "read_next_token", "read_block_string"}
+    classes = ClassIndex(repo)
+    lex = classes.get("graphql.language.lexer", "Lexer")
+    n = 0
+    for ci in [lex, *classes.subclasses(lex)]:
+        for name, fn in ci.methods().items():
+            for w in write_sites(fn):
+                if w.kind not in ("attr-store", "setattr", "del") or w.detail not in ("line", "line_start") or unparse(w.target) != "self":
+                    continue
+                n += 1
+                in_owner = name in owners
+                grows = name == "__init__" or w.detail != "line" or (isinstance(w.node, ast.AugAssign) and isinstance(w.node.op, ast.Add))
+                ok = in_owner and grows
+                check.ob(rule, w.node, f"{ci.name}.{name}: {node_text(w.node, 60)}", ok,
+                         "owner routine, counter only grows" if ok else
+                         (f"`self.{w.detail}` is written outside {sorted(owners)}" if not in_owner else "the line counter is assigned, not advanced"))
+    check.floor(rule, 5, "writes to Lexer.line / line_start")
+
+
+# -- objects tested for presence must not have a length ---------------------------------
+
+
+def object_truthiness(check: Check, repo: Repo, modules: list[str], rule: str = "OBJECT-TRUTHINESS") -> None:
+    from rules.write_effect import top_heads
+    from sa.mtypes import MTypes
+    from sa.resolve import ClassIndex
+
+    check.rule(
+        rule,
+        "where a value typed `C | None` (C a class of the package) is tested by bare truthiness - "
+        "`if self.source and ...`, `if node.loc` - the test means 'is present'; it keeps that meaning only "
+        "while neither C nor a base of C defines __bool__ or __len__ (a Source with an empty body, a "
+        "Location of width 0 would otherwise count as absent and its errors lose their locations)",
+    )
+    mt = MTypes.get(repo)
+    classes = ClassIndex(repo)
+    n = 0
+    for mn in modules:
+        mod = repo.mod(mn)
+        for node in ast.walk(mod.tree):
+            tests: list[ast.AST] = []
+            if isinstance(node, (ast.If, ast.While, ast.IfExp)):
+                tests = [node.test]
+            elif isinstance(node, ast.BoolOp):
+                tests = list(node.values)
+            elif isinstance(node, ast.UnaryOp) and isinstance(node.op, ast.Not):
+                tests = [node.operand]
+            elif isinstance(node, ast.comprehension):
+                tests = list(node.ifs)
+            for t in tests:
+                if not isinstance(t, (ast.Name, ast.Attribute)):
+                    continue
+                ty = mt.type_of(t)
+                heads = top_heads(ty) if ty else set()
+                if "None" not in heads:
+                    continue
+                for h in heads - {"None"}:
+                    if not h.startswith("graphql."):
+                        continue
+                    modname, _, cname = h.rpartition(".")
+                    ci = classes.by_full.get(h)
+                    if ci is None:
+                        continue
+                    sized = [
+                        f"{c.name}.{m}" for c in classes.mro(ci) for m in ("__bool__", "__len__") if m in c.methods()
+                    ]
+                    n += 1
+                    check.ob(rule, t, f"truthiness of `{unparse(t)}` ({cname} | None) in {qualname_of(t)}", not sized,
+                             f"{cname} defines neither __bool__ nor __len__: truthiness == presence" if not sized else
+                             f"{', '.join(sized)} makes an existing {cname} falsy: the presence test also rejects it")
+    check.note(presence_tests=n)
